@@ -37,9 +37,11 @@ handles in this port), the same source twice / two sources with the same base na
 earlier; DistinctLogs is a stated precondition), wildcard arguments, -E combined with -L / listing duplication,
 fatal errors (EmergencyStop closes the handle), existing read-only targets.
 Mutations of the real code tried on scratch copies (201 ctest tests green each time), quick tier:
-  AssembleFile(): `if (*ErrorPath) CloseIfOpen` (the seed)                     -> VIOLATION (named and per forms)
-  AssembleFile(): the close deleted (handle never closed per source)           -> VIOLATION (per form)
-  main(): unlink(ErrorName) moved into AssembleFile() for named targets too    -> see MUTATIONS in c20.py
+  AssembleFile(): `if (*ErrorPath) CloseIfOpen` (the seed)            -> VIOLATION, 640 of 1705 invocations (-E name, -E)
+  AssembleFile(): `if (0)` (handle never closed per source)           -> VIOLATION (-E: later sources land in the first log)
+  AssembleFile(): `if (1)` (handle closed behind every source)        -> VIOLATION (-E name: earlier sources are lost)
+Mutation of the model: SinkFileEnd with the condition inverted -> TLC refutes SinkMatchesDecl (already for one source:
+the handle is not closed when the invocation ends).
 """
 from vlib import aslrun
 from vlib import diagparse as dp
